@@ -49,7 +49,7 @@ HOT = ("_on_connected", "_dispatcher_thread_function", "_on_connection_message_r
 OPS = [
     "connect", "connect_inflight_select", "peer_close", "disable", "enable",
     "select_req", "select_rsp", "deselect_req", "deselect_rsp", "linktest_req", "linktest_rsp",
-    "separate_req", "reject_req", "data", "data", "app_request", "answer_select",
+    "separate_req", "reject_req", "data", "data", "app_request", "answer_select", "app_request_open", "reply_open", "reply_open",
 ]
 
 
@@ -109,6 +109,7 @@ def run_case(case, observe=None):
         sysc = [0x40000]
         delivered = 0
         connected_once = False
+        open_req = {}  # an application request left outstanding: {"sys", "box"}
 
         def nxt():
             sysc[0] += 1
@@ -169,6 +170,7 @@ def run_case(case, observe=None):
                 connected_once = True
                 m.state = e37.NOT_SELECTED
                 m.open_select = set()
+                open_req.clear()
                 if inflight:
                     m.state = e37.SELECTED
                     stats["selects"] += 1
@@ -265,6 +267,43 @@ def run_case(case, observe=None):
                 elif m.state == e37.NOT_SELECTED:
                     expect_frames.append((e37.REJECT_REQ, s, 4))
                 # after Separate.req either outcome of the two states is acceptable: checked below
+            elif k == "app_request_open":
+                # the application opens a transaction and keeps waiting (answered later by reply_open, in whatever state)
+                if m.state != e37.SELECTED or open_req:
+                    continue
+                import secsgem.secs
+
+                obox = {}
+
+                def oreq(obox=obox):
+                    obox["r"] = rig.p.send_and_waitfor_response(secsgem.secs.functions.SecsS01F01())
+                    obox["done"] = True
+
+                sim.spawn(oreq, "app-request-open")
+                sim.settle()
+                out = [f for f in collect() if f["stype"] == e37.DATA]
+                if len(out) != 1 or (out[0]["stream"], out[0]["function"], out[0]["w"]) != (1, 1, 1):
+                    return fail("app-request-not-sent", i, out, "one S1F1 W on the wire")
+                open_req.update({"sys": out[0]["system"], "box": obox})
+                stats["open_requests"] = stats.get("open_requests", 0) + 1
+            elif k == "reply_open":
+                # the peer answers the outstanding transaction: delivered to the caller only in SELECTED
+                if not open_req or open_req["box"].get("done"):
+                    continue
+                s = open_req["sys"]
+                rig.feed(e37.data_frame(0, 1, 2, 0, s, bytes.fromhex("0100")))
+                sim.settle()
+                stats["data_states"].add(m.state)
+                if m.state == e37.SELECTED:
+                    r = open_req["box"].get("r")
+                    if r is None or r.header.system != s:
+                        return fail("open-request-reply-lost", i, r, "reply returned to the caller")
+                    open_req.clear()
+                else:
+                    expect_frames.append((e37.REJECT_REQ, s, 4))
+                    if open_req["box"].get("r") is not None:
+                        return fail("delivery:reply_open:delivered-while-not-selected", i, "reply handed to the waiting caller in NOT SELECTED", "Reject.req, not delivered")
+                    stats["reply_while_not_selected"] = stats.get("reply_while_not_selected", 0) + 1
             elif k == "app_request":
                 # the application sends a primary and the peer answers it: the reply must not be delivered as unsolicited
                 if m.state != e37.SELECTED:
@@ -340,6 +379,8 @@ def run_task(name, kw, ctx):
             cls.append("reconnect")
         if obs.get("inflight"):
             cls.append("inflight-select")
+        if obs.get("reply_while_not_selected"):
+            cls.append("reply-to-open-transaction-while-not-selected")
         if obs.get("preempt_hits"):
             cls.append("preemption-hit")
         if case["sched"].get("seed"):
